@@ -163,9 +163,9 @@ class VirtualClock:
         name = frame.f_code.co_name
         self.sites[name] = self.sites.get(name, 0) + 1
         if self.leap_at_call is not None and self.calls == self.leap_at_call:
-            # unreduced mode for the reduction-conformance run
+            # unreduced mode for the reduction-conformance run: time passes before this very
+            # call; the site bookkeeping below (packet count, horizon) still takes place
             self.now += self.SLICE_LEAP
-            return self.now
         if name == "_expand_classes_for":
             if "expansion_start" in frame.f_locals:
                 self.packets += 1
